@@ -127,7 +127,8 @@ PROPS = {
         "claimed": True,
         "title": "Blind signatures and DLEQ proofs are algebraically correct and tamper-evident",
         "lean": ["Gonuts.Props.C10", "Gonuts.Tie.Spec"],
-        "streams": ["bdhke", "bdhke-spec"],
+        "streams": ["bdhke", "bdhke-spec", "mint-mon"],
+        "quick_shards": {"mint-mon": 3},
         "level": "proof",
         "technique": "Lean 4 theorems (Mathlib linear algebra) about blind/sign/unblind/verify/GenerateDLEQ/VerifyDLEQ/VerifyProofDLEQ "
                      "over an ABSTRACT module G over ZMod n (all primes n, all modules, arbitrary hash function) + a monitor stream that "
@@ -262,7 +263,7 @@ PROPS["C01"] = {
     "lean": ["Gonuts.Props.C01", "Gonuts.Tie.Mint"],
     "streams": ["mint-seq", "mint-mon", "mint-sched"],
     "thorough_shards": {"mint-seq": 4, "mint-mon": 4, "mint-sched": 8},
-    "quick_shards": {"mint-sched": 3, "mint-seq": 2, "mint-mon": 3},
+    "quick_shards": {"mint-sched": 5, "mint-seq": 2, "mint-mon": 3},
     "level": "proof",
     "technique": "Lean 4 invariants over an executable small-step model of the mint (effect-level for all schedules/crashes/faults; by induction over sequential histories) + differential correspondence and model-free double-spend monitors against the real mint",
     "design_ref": "DESIGN.md §4.1, §5 C01",
@@ -287,18 +288,18 @@ def mint_prop(pid, title, lean, text, extra_note="", streams=("mint-seq", "mint-
         "assumptions": MINT_ASSUME,
     }
 
-mint_prop("C02", "No inflation: outstanding ecash plus Lightning outflow never exceeds inflow", ["Gonuts.Props.C02", "Gonuts.Props.C02Ledger"],
+mint_prop("C02", "No inflation: outstanding ecash plus Lightning outflow never exceeds inflow", ["Gonuts.Props.C02", "Gonuts.Props.C02Ledger", "Gonuts.Tie.LnClients"],
     "PROVED for the model, for every input (UInt64 semantics incl. Go's unchecked wrap-around), every fee configuration and every Lightning script: swap outputs + input fee <= inputs in N with NO size hypothesis (swap_out_le_in_minus_fee: the unchecked input sum can only wrap down); signatures are for exactly the requested output amounts on the active keyset (signatures_match_outputs); mint outputs <= quote amount and the quote was PAID (mint_out_le_quote); an accepted melt holds >= amount + fee reserve + input fees (melt_burns_amount_reserve_fees); a melt makes at most one payment attempt, for the quote's invoice and msat amount, with the quote's FEE RESERVE as fee limit (fee_limit_eq_reserve, F1); 1000*quoted amount >= msat to be paid, full and MPP (meltquote_covers_msat, F2); fee = ceil(sum ppk/1000) per input keyset (C09.fees_per_keyset, C18.transactionFees_eq_ceil).",
     "The history-level statement IS a theorem (Props.C02Ledger.ledger / no_inflation / pending_melts_covered, by induction over the unbounded op list with the potential Led of Lemmas/MintLedger.lean): in every state reached from a fresh mint by any sequential fault-free history of admissible operations, 1000*(signed + credit) + paidOut <= 1000*(received + redeemed) and every PENDING melt is covered by the inputs locked under it; admissible excludes only watcher notifications for unsettled invoices, melts whose amount+reserve+fees wraps in 64 bits, and internal settlement against a LARGER mint quote (only constructible with the scripted backend's stand-in invoices >= 2^40 sat). Outside the theorem: overlapping requests and storage faults (known findings C01/C03/C07 - a double spend is inflation) and the step from the model's paidOut bound to actual outflow (C05 + fee_limit_eq_reserve + meltquote_covers_msat). The model-free ledger monitor (msat arithmetic, backend charging the whole fee limit) evaluates the same inequality on the real mint after every operation of mint-seq / mint-mon.")
-mint_prop("C03", "A mint quote is issued at most once per payment, never before it is paid", ["Gonuts.Props.C03"],
+mint_prop("C03", "A mint quote is issued at most once per payment, never before it is paid", ["Gonuts.Props.C03", "Gonuts.Tie.LnClients"],
     "PROVED for the model (mint after F11), sequential histories: issuance only on a quote that is PAID or UNPAID-with-settled-invoice (never_before_paid); for at most the quoted amount (amount_le_quote); for a NUT-20 locked quote only with a signature by that key over exactly (quote id, the submitted B_ in order) — no/garbage signature, other key, other quote, reordered/added/removed outputs refused (quoteSigOk_iff, nut20_required); after success the quote is ISSUED (issued_after_success), an ISSUED quote refuses with 20002 without any change or backend call (issued_refuses), and it stays ISSUED through any list of further mint requests, polls with any answer, watcher notifications, new quotes and swaps (issued_stays_issued, at_most_once; induction over the unbounded event list); the watcher writes PAID only over UNPAID (watcher_cases). (Every event sequence of arrivals, single-call scheduler steps, faults and kills) a blinded message is signed at most once, stored signatures and quote terms are never lost (signed_once_schedule, signature_kept_schedule, quote_terms_fixed_schedule). The concurrent half (however requests, polls and the notification interleave) is FALSE of the code: schedules_full_false with kernel-checked witnesses w3 (mint||mint: 16 issued for 8 paid) and w3n (watcher read->write window left by F11), reproduced against the real mint by stream mint-sched, known findings C03/sched/*.",
     "Stream mint-sched: mint||mint (valid and invalid second request), mint||watcher notification, mint||poll||notification, internal melt||mint as scheduled goroutines over the real mint, model stepped in lockstep; the issuance-count monitor is evaluated when all threads have returned and after one more sequential mint request.",
-    streams=("mint-seq", "mint-mon", "mint-sched"), shards={"mint-sched": 8}, qshards={"mint-sched": 3})
+    streams=("mint-seq", "mint-mon", "mint-sched"), shards={"mint-sched": 8}, qshards={"mint-sched": 5})
 mint_prop("C04", "Only genuine mint signatures are honoured, at exactly their signed amount", ["Gonuts.Props.C04", "Gonuts.Props.C04Mint"],
     "PROVED: (algebra, Props.C04, all primes n, all ZMod n-modules) the gate accepts iff C = key(id,amount)·H(secret) with the stated side conditions; every single-field mutation (amount, id, secret, C) of a genuine proof is rejected under key-injectivity / H-injectivity hypotheses; honest unblinded signatures are accepted; the symbolic view used by Model.Mint is sound under SigInjective (C04_symbolic_sound, with the counterexample not_jointly_injective showing the joint hypothesis is needed). (protocol, Props.C04Mint) gate_iff for the model's verifyProofs loop body in source order; swap and melt only accept inputs that pass it (swap_inputs_genuine, melt_inputs_genuine); mutation_amount/_keyset/_secret/_C, too_long_rejected, honest_accepted.",
     "Unforgeability (no genuine term without a blind signature) is a cryptographic assumption. Stream bdhke checks the gate's accept/reject on real secp256k1 for every single-field mutation.",
     streams=("mint-seq", "mint-mon", "bdhke"))
-mint_prop("C05", "Melt inputs follow the Lightning outcome: spent iff paid, released iff failed", ["Gonuts.Props.C05"],
+mint_prop("C05", "Melt inputs follow the Lightning outcome: spent iff paid, released iff failed", ["Gonuts.Props.C05", "Gonuts.Tie.LnClients"],
     "PROVED for the model, every melt that passed validation, every pay answer a0, every status answer a1 and every LIST of later poll answers (no length bound): the final quote state is the closed table meltOutcome a0 a1 / pollOutcome a (melt_table, poll_table: PAID iff a definitive success, UNPAID iff a definitive failure or not-found on the in-melt check, PENDING on every ambiguous answer); the inputs are SPENT with the preimage (paid), still LOCKED (pending) or RELEASED (unpaid), nothing else (melt_follows_outcome, tail_inputs, melt_internal); a poll adopts succ/failed in the same call and changes nothing otherwise (poll_follows_outcome, poll_inputs); the verdict after any list of polls is decided by the first definitive answer (resolve_first_definitive, resolve_all_ambiguous, resolve_final).")
 mint_prop("C06", "Rejected or malformed requests change nothing and never crash a handler", ["Gonuts.Props.C06"],
     "PROVED for the model, every request content: a refused swap leaves tables and Lightning state untouched (swap_reject_noop); a refused melt likewise, except the failed backend lookup of an internal settlement after which spent is unchanged and no input is locked (melt_reject_noop, F15); a refused MintTokens leaves the tables exactly as its leading quote-state check left them — which changes at most that quote UNPAID->PAID when the invoice is settled (mint_reject_noop with quote ids unique in every reachable state: mintQ_nodup_db; quoteState_only_unpaid_to_paid; F4); refused mint-/melt-quote requests and restores write nothing.",
@@ -307,7 +308,7 @@ mint_prop("C06", "Rejected or malformed requests change nothing and never crash 
 mint_prop("C07", "Mint crash consistency: a crash at any point never inflates or strands value", ["Gonuts.Props.C07", "Gonuts.Props.C01"],
     "PROVED for the model, for EVERY event sequence (any operation, any interruption point, any number of kills, injected storage errors and requests in flight, any inputs): durability — a SPENT row, a stored signature, a keyset's index and fee, a quote's terms are never lost (durable_spent, durable_signature, durable_keyset, durable_mint_quote, durable_melt_quote); a kill changes no table and the restarted cache is a function of storage (kill_keeps_tables, restart_cache_from_storage); the unique keys of the spent/pending/signature tables hold at every point (unique_keys_always); a spent secret is refused by every later request (spent_refused_after_restart). FALSE of the code, with kernel-checked witnesses: atomicity (swap_atomic_full_false: killed between SaveProofs and SaveBlindSignatures the inputs are SPENT and nothing is restorable, swap_stranded_for_good; mint_atomic_full_false), safety (melt_safety_full_false: killed between RemovePendingProofs and SaveProofs the invoice is paid and the inputs spendable), start-up (rotate_restart_full_false: no active keyset, LoadMint panics). The complete interruption tables of the canonical swap/mint/melt/rotation (swap_table, mint_table, melt_table, rotate_table) are decide-checked TESTS of the model, compared point by point with the real mint by stream mint-crash.",
     "Stream mint-crash: every listed operation x every interruption point k x {kill+restart, storage error at call k then restart} against the real mint on real SQLite (goroutine parked for ever at the Gate = process kill; LoadMint on the same directory), followed by state check, poll, retry, restore and re-spend; the model executes the same prefix, kill and follow-up; verdicts (unsafe / lost / stranded / ok) are computed model-free from storage and the backend's ledger. 52 interruption points violate the property on the unchanged tree (known findings C07/crash/*, C07/fault/*, one signature per (mode, operation, call, verdict)); any other point, or another verdict at a listed point, is a VIOLATION. The model's kill drops continuations between calls; torn writes inside one SQLite transaction and fsync behaviour are NOT modelled (SQLite's own atomicity is trusted).",
-    streams=("mint-crash", "mint-sched"), shards={"mint-sched": 8, "mint-crash": 4}, qshards={"mint-sched": 3, "mint-crash": 3})
+    streams=("mint-crash", "mint-sched"), shards={"mint-sched": 8, "mint-crash": 4}, qshards={"mint-sched": 5, "mint-crash": 3})
 mint_prop("C09", "Keyset lifecycle: deterministic keys, one active keyset, old ecash stays valid", ["Gonuts.Props.C09"],
     "PROVED for the model (keyset = derivation index): stored rows keep index and fee through every effect/history (keyset_row_stable*); a successful rotation deactivates the old keyset, appends index+1 with the requested fee and leaves exactly one active keyset (rotate_ok, rotate_one_active); signatures only on the active keyset, unknown id -> 12001, inactive -> 12002 (sign_only_active); genuine proofs of every held keyset pass the gate (old_keysets_accepted) and are charged their own keyset's fee (fees_per_keyset, memFee_known); a restart rebuilds the cache from the stored rows (restart_cache).",
     "That keyset id and the 60 keys are the NUT-02 function of (seed, index) is checked bit for bit against the Lean reference Spec.MintKeys by stream deriv (C11); the C09 monitors in mint-seq/mint-mon observe ids, keys, fees and the active flag across rotations and restarts of the real mint.",
